@@ -1,0 +1,62 @@
+//go:build verif
+
+// Package verifhook lets an external verification harness observe and pace a
+// few named points inside the server. It is compiled in only with the "verif"
+// build tag; without the tag every function is an empty stub (off.go).
+package verifhook
+
+import "sync"
+
+// Handler receives hook calls for one server instance (keyed by data dir).
+type Handler struct {
+	// Point is called at named points of a connection goroutine, outside the
+	// server lock. It may block to park the connection.
+	Point func(name string, client int)
+	// Stage is called at named stages of AOFSHRINK. Stages whose name starts
+	// with "swap:" are called while the server lock is held and must not
+	// issue commands to the server.
+	Stage func(name string)
+}
+
+var (
+	mu       sync.RWMutex
+	handlers = map[string]*Handler{}
+)
+
+// Enabled reports whether hooks are compiled in.
+const Enabled = true
+
+// Register installs the handler for the server running on dir.
+func Register(dir string, h *Handler) {
+	mu.Lock()
+	handlers[dir] = h
+	mu.Unlock()
+}
+
+// Unregister removes it.
+func Unregister(dir string) {
+	mu.Lock()
+	delete(handlers, dir)
+	mu.Unlock()
+}
+
+func get(dir string) *Handler {
+	mu.RLock()
+	h := handlers[dir]
+	mu.RUnlock()
+	return h
+}
+
+// Point reports that a connection goroutine reached a named point.
+func Point(dir, name string, client int) {
+	if h := get(dir); h != nil && h.Point != nil {
+		h.Point(name, client)
+	}
+}
+
+// Stage reports that AOFSHRINK reached a named stage.
+func Stage(dir, name string) {
+	if h := get(dir); h != nil && h.Stage != nil {
+		h.Stage(name)
+	}
+}
